@@ -64,7 +64,8 @@ def generate(rng, tier):
           "sg": rng.choice(["P 1", "P1", "P 1", None, "P -1", "P 21/c", "F m -3 m", "P 1 21 1", "C 2/m"]),
           "bonds": [rng.sample(range(n), 2) for _ in range(rng.randint(0, 4))] if n > 1 else [],
           "extra": rng.random() < 0.4, "label_style": rng.choice(["el_n", "n_el", "X"]), "read_script": rng.choice([None, {"chunk": "random", "seed": rng.getrandbits(16)}])}
-    return {"seed": rng.getrandbits(31), "cfg": cfg, "structure": fs, "case": case, "handmade": hm}
+    return {"seed": rng.getrandbits(31), "cfg": cfg, "structure": fs, "case": case, "handmade": hm,
+            "then_replicate": rng.choice([[2, 1, 1], [1, 2, 1], [1, 1, 2], [2, 1, 2]]) if rng.random() < 0.3 else None}
 
 
 # ---------------------------------------------------------------------------------------------------------------
@@ -415,6 +416,30 @@ def execute(spec, ctx):
     ctx.count("rewrite_stable_checks")
     if fract:
         _ase_agreement(ctx, t1, re1, "file written by mofun")
+    if spec.get("then_replicate") and len(m.atoms) * int(np.prod(spec["then_replicate"])) <= 60:
+        # a later operation on the object that was just written: replicate, then write the supercell
+        dims = tuple(int(d) for d in spec["then_replicate"])
+        try:
+            sup = real.replicate(dims)
+        except Exception as e:
+            raise Violation("raises:%s" % type(e).__name__, "replicate%s: %s" % (dims, e), site="replicate")
+        msup = m.replicate(dims)
+        blocks = None
+        try:
+            n0 = len(m.atoms)
+            rp = np.asarray(sup.positions, float).reshape(-1, 3)
+            inv = np.linalg.inv(np.array(m.cell, float))
+            p0 = np.array([a.pos for a in m.atoms])
+            blocks = [tuple(int(x) for x in np.round((rp[b * n0] - p0[0]) @ inv)) for b in range(int(np.prod(dims)))]
+            msup = m.replicate(dims, image_order=blocks)
+        except Exception:
+            msup = m.replicate(dims)
+        ts, ps = _save(ctx, fs, sup, "save_p1_cif", "sup", fract)
+        try:
+            _check_text(ctx, ts, msup, fract)
+        except Violation as v:
+            raise Violation(v.cls, "after save -> replicate%s -> save: %s" % (dims, v.msg), site=v.site)
+        ctx.count("save_replicate_save")
     _check_handmade(ctx, fs, spec["handmade"])
     if not np.allclose(c, np.diag(np.diag(c))) or any(m.terms[k] for k in KINDS) or any(m.xlabels[k] for k in m.xlabels):
         ctx.key(spec["structure"], spec["case"], spec["handmade"])
